@@ -3,13 +3,15 @@
 set -u
 diff=$1; prop=$2; tier=${3:-quick}
 cd /repo || exit 2
-if ! git diff --quiet; then echo "REFUSING: /repo has uncommitted changes"; exit 2; fi
-git apply -3 "$diff" 2>/dev/null || git apply "$diff" || { echo "PATCH DOES NOT APPLY"; git checkout -q -- .; exit 3; }
-git reset -q 2>/dev/null
+if ! git diff --quiet || ! git diff --cached --quiet; then echo "REFUSING: /repo has uncommitted changes"; exit 2; fi
+if git apply --check "$diff" 2>/dev/null; then git apply "$diff"
+elif git apply -3 "$diff" >/dev/null 2>&1 && ! git status --short | grep -q '^UU'; then git reset -q
+else echo "PATCH DOES NOT APPLY"; git reset -q --hard HEAD; exit 3; fi
 cd /verif && ./check "$prop" --tier "$tier" > /tmp/try_seed.$$.out 2>&1
 rc=$?
-cd /repo && git checkout -q -- . && git clean -fdq yarel/src 2>/dev/null
-grep -E "^(VIOLATION|KNOWN-FINDING|TOOL-ERROR)" /tmp/try_seed.$$.out | head -5
-grep -A1 "^VIOLATION" /tmp/try_seed.$$.out | grep "  ->" | head -3 | cut -c1-400
+cd /repo && git reset -q --hard HEAD && git clean -fdq yarel/src 2>/dev/null
+grep -E "^(VIOLATION|TOOL-ERROR)" /tmp/try_seed.$$.out | head -4
+grep -c "^KNOWN-FINDING" /tmp/try_seed.$$.out | sed 's/^/known-finding lines: /'
+grep -A1 "^VIOLATION" /tmp/try_seed.$$.out | grep "  ->" | head -3 | cut -c1-500
 echo "exit=$rc"
 rm -f /tmp/try_seed.$$.out
